@@ -292,6 +292,41 @@ def clause15_first_read_is_checked(ctx, P, cg):
         raise AnalysisBroken("first reads of new connections found: %d" % n)
 
 
+def clause16_handed_over_items(ctx, P):
+    """add_item_to_object() takes its item over whatever happens: attached on success, deleted on failure (checked here on the
+    wrapper itself).  So no caller releases an item after it has passed it to the wrapper - not on the failure branch either, where
+    a 'missing' cJSON_Delete looks like a leak fix and is a double free"""
+    w = P.fn("response.c:add_item_to_object")
+    item = ("param", 2, w.params[2]["name"])
+    contract = True
+    for v in Q.path_views(ctx, P, w):
+        rc = v.ret_const()
+        if rc is not None and rc < 0:
+            contract = contract and any(P.term(w, i.a[0]) == item for _, i in v.calls("cJSON_Delete"))
+    n = 0
+    bad = None
+    for f in P.own_functions():
+        cs = f.calls("add_item_to_object")
+        if not cs:
+            continue
+        for v in Q.path_views(ctx, P, f):
+            handed = []
+            for k, i in v.calls():
+                nm = P.srcname_of(i.callee) if i.callee else ""
+                if nm == "add_item_to_object" and len(i.a) > 2:
+                    handed.append(P.term(f, v.resolve(i.a[2])))
+                    n += 1
+                elif nm in ("cJSON_Delete", "cjet_free") and handed:
+                    t = P.term(f, v.resolve(i.a[0]))
+                    if t in handed and t != ("null",):
+                        bad = bad or (f, i, v)
+    ctx.ob("C07.1 R-OWN", w, "items-handed-to-the-add-wrapper-are-not-released-again", contract and bad is None and n >= 20,
+           ("%s() releases at %s an item it has already passed to add_item_to_object() on that path: the wrapper deletes the item itself "
+            "when it cannot attach it - a double free" % (bad[0].srcname, bad[1].loc)) if bad else
+           ("add_item_to_object() no longer deletes the item on its failure path" if not contract else "%d hand-overs, none released again" % n),
+           witness=bad[2].witness() if bad else None)
+
+
 def clause12_registered_for_shutdown(ctx, P, cg):
     """'a termination signal closes every connection, releases everything': the shutdown sequence (run_jet after the loop returned)
     can only release what some list knows.  Every handler of an accepted descriptor (the functions handed to accept_common())
@@ -789,3 +824,4 @@ def run(ctx):
         clause13_freed_field_is_reassigned(ctx, P)
         clause14_torn_down_means_zero(ctx, P)
         clause15_first_read_is_checked(ctx, P, cg)
+        clause16_handed_over_items(ctx, P)
